@@ -1,6 +1,7 @@
 """One function per property: check_<ID>(tier, seed) -> exit code."""
 import json
 import os
+import random
 import sys
 
 from . import common, engine, families, vmrun
@@ -103,6 +104,19 @@ def check_C10(tier, seed):
     cases = [c for c in vmrun.run_scenarios(scns) if 'harness_error' not in c]
     engine.judge_cases(rep, cases, devs, what='scoping program')
     _functions_frozen(rep, cases)
+    # sessions of the interactive loop (smartquery/repl.py, spec/SQRepl.tla): one names mapping over many evals
+    from . import repl_conf
+    r = random.Random(seed + 5)
+    scns = [repl_conf.random_script(r, r.choice([4, 8, 12])) for _ in range(150 if quick else 1500)]
+    cases = [c for c in vmrun.run_scenarios(scns) if 'harness_error' not in c]
+    engine.judge_cases(rep, cases, devs, what='interactive session', side_clauses={'property REPL Printed': 'repl_printed_text_differences'})
+    lv, res = repl_conf.validate_loops(cases)
+    rep.add_tlc(res, 'TraceRepl on %d recorded sessions' % len(cases))
+    nd = sum(1 for v in lv.values() if v['v'] != 'accepted')
+    if res.rc != 0 or len(lv) != len(cases):
+        rep.machinery.append('TraceRepl failed: ' + res.out[-800:])
+    if nd:
+        rep.notes['repl_loop_differences'] = {'sessions': nd, 'note': 'the loop of repl.py differs from SQRepl (not part of this property; see tools/repl_check.py)'}
     rep.assumptions += ['lambda bodies that assign exist only as host-supplied ASTs (ast_names), as in tests/test_sq_parser.py::test_custom_ast_functions']
     return rep.finish()
 
